@@ -186,4 +186,135 @@ Section Stack.
       + intros Hne. exact (proj2 Gengo.Proofs.GenFile.imports_claim e' Hne (proj1 T)).
       + exact (crender_all_erase frags [] body e' H e' (PTL.ext_refl e')).
   Qed.
+
+  (* ---- what a leaf registers, read off the leaf alone ---- *)
+  Lemma idarg_regs_not_self : forall x p, In p (idarg_regs self parse_c15 x) -> p <> self.
+  Proof.
+    assert (T : forall t p, In p (tref_regs self t) -> p <> self).
+    { intros t p H. pose proof (proj1 tref_regs_foreign t p H) as Fg. unfold is_foreign in Fg.
+      apply andb_true_iff in Fg. destruct Fg as [_ Fg]. apply negb_true_iff in Fg. intros ->. rewrite bytes_eqb_refl in Fg. discriminate. }
+    assert (N : forall pkg name p, In p (name_regs self parse_c15 pkg name) -> p <> self).
+    { intros pkg name p H. unfold name_regs in H. apply in_app_iff in H. destruct H as [H|H].
+      - destruct (parse_c15 name) as [[q n [|a0 r0]]|]; try (destruct H; fail). exact (T _ _ H).
+      - destruct (bytes_eqb pkg self) eqn:E; [destruct H|]. destruct H as [<-|[]]. intros ->. rewrite bytes_eqb_refl in E. discriminate. }
+    assert (V : (forall v p, In p (RenderStack.view_regs self parse_c15 v) -> p <> self) /\
+                (forall fs p, In p (RenderStack.fields_regs self parse_c15 fs) -> p <> self)).
+    { apply tyview_mutind; try (intros; cbn in *; contradiction).
+      - intros pkg name p H. exact (N _ _ _ H).
+      - intros x IH p H. exact (IH p H).
+      - intros x IH p H. exact (IH p H).
+      - intros fs IH p H. exact (IH p H).
+      - intros n x IH p H. exact (IH p H).
+      - intros x IH p H. exact (IH p H).
+      - intros k IHk x IHx p H. change (RenderStack.view_regs self parse_c15 (TL.VMap k x)) with (RenderStack.view_regs self parse_c15 k ++ RenderStack.view_regs self parse_c15 x) in H.
+        apply in_app_iff in H. destruct H; auto.
+      - intros name anon t IHt tag rest IHr p H.
+        change (RenderStack.fields_regs self parse_c15 (TL.VFCons name anon t tag rest)) with (RenderStack.view_regs self parse_c15 t ++ RenderStack.fields_regs self parse_c15 rest) in H.
+        apply in_app_iff in H. destruct H; auto. }
+    intros x p H. destruct x as [s|s|pk n tps|v|v|]; cbn [idarg_regs] in H.
+    - destruct (TL.parse_ref s) as [[pk n]|]; [exact (N _ _ _ H)|destruct H].
+    - destruct (TL.parse_ref s) as [[pk n]|]; [exact (N _ _ _ H)|destruct H].
+    - exact (N _ _ _ H).
+    - exact (proj1 V _ _ H).
+    - exact (proj1 V _ _ H).
+    - destruct H.
+  Qed.
+
+  Lemma cpkgs_not_self : forall s p, In p (cpkgs s) -> p <> self.
+  Proof.
+    intros s p H. unfold cpkgs in H. revert s p H. apply rpkgs_render_forall.
+    - intros [[[t v]|]|[x|]|pk n] p H; cbn [RenderStack.leaf_regs] in H; try (destruct H; fail).
+      + unfold leaf_value_regs in H. apply filter_In in H. destruct H as [_ Fg]. unfold is_foreign in Fg.
+        apply andb_true_iff in Fg. destruct Fg as [_ Fg]. apply negb_true_iff in Fg. intros ->. rewrite bytes_eqb_refl in Fg. discriminate.
+      + exact (idarg_regs_not_self _ _ H).
+      + exact (idarg_regs_not_self _ _ H).
+    - intros [t v| |x] p H; cbn [RenderStack.raw_v_regs] in H; try (destruct H; fail).
+      unfold leaf_value_regs in H. apply filter_In in H. destruct H as [_ Fg]. unfold is_foreign in Fg.
+      apply andb_true_iff in Fg. destruct Fg as [_ Fg]. apply negb_true_iff in Fg. intros ->. rewrite bytes_eqb_refl in Fg. discriminate.
+    - intros [t v| |x] p H; cbn [RenderStack.raw_t_regs] in H; try (destruct H; fail).
+      + destruct t; try (destruct H; fail). destruct v; try (destruct H; fail). exact (idarg_regs_not_self _ _ H).
+      + exact (idarg_regs_not_self _ _ H).
+  Qed.
+
+  Lemma body_table_not_self : forall frags body e', crender_all frags [] = Ok (body, e') -> ~ In self (map fst e').
+  Proof.
+    intros frags body e' H Hin. rewrite (crender_all_reach frags [] body e' H) in Hin.
+    apply (add_all_paths pick ptotal) in Hin. destruct Hin as [[]|Hin].
+    apply in_flat_map in Hin. destruct Hin as (s & _ & Hp). exact (cpkgs_not_self s self Hp eq_refl).
+  Qed.
+
+  (* value leaves, repaired code: exactly the foreign packages the literal mentions *)
+  Lemma value_regs_exact : forall local t v l,
+    fx6 = true ->
+    vlit fzero ffmt gfmt fbig quote local false t v = Ok l ->
+    keys_distinct fzero ffmt gfmt fbig quote local t v = true ->
+    forall p, In p (leaf_value_regs fzero ffmt gfmt fbig quote self fx6 t v) <-> In p (filter (is_foreign self) (lit_pkgs l)).
+  Proof.
+    intros local t v l -> H K p. unfold leaf_value_regs. rewrite !filter_In. split; intros [H1 H2]; (split; [|exact H2]).
+    - exact (value_regs_used fzero ffmt gfmt fbig quote v local false t l H K p H1).
+    - exact (value_lit_pkgs fzero ffmt gfmt fbig quote true v local false t l H p H1).
+  Qed.
+
+  Lemma add_all_registered : forall ps e, (forall p, In p ps -> In p (map fst e)) -> add_all ps e = e.
+  Proof.
+    induction ps as [|p r IH]; intros e H; [reflexivity|]. cbn.
+    assert (E : TL.tr_add pick p e = e).
+    { unfold TL.tr_add. destruct (TL.alookup p e) eqn:L; [reflexivity|]. exfalso.
+      apply alookup_none_notin in L. apply L, H. left. reflexivity. }
+    rewrite E. apply IH. intros q Hq. apply H. right. exact Hq.
+  Qed.
 End Stack.
+
+(* ---- type leaves: C11's theorems at the table of the assembled file (the tracker of the current tree) ---- *)
+Section TypeLeaves.
+  Variable self : bytes.
+  Variable cbq : bytes -> bool.
+  Hypothesis Hc : PTL.cbq_hyp cbq.
+
+  Import Gengo.Spec.TypeLit.
+
+  (* ident.Frag registers exactly the foreign packages of the type *)
+  Lemma idarg_regs_exact : forall x g,
+    PTL.renders x g -> in_domain PTL.all_tags self g = true ->
+    forall p, In p (idarg_regs self parse_c15 x) <-> In p (foreign_pkgs self g).
+  Proof.
+    intros x g Hx Hd p.
+    destruct (Gengo.Proofs.RenderStackConcrete.c11_total_concrete self cbq Hc x g [] Hx Hd
+                (Gengo.Proofs.RenderStackConcrete.tracker_inv_nil self)) as (a & e' & E).
+    destruct (Gengo.Proofs.RenderStackConcrete.c11_imports_exact_concrete self cbq Hc x g [] a e' Hx Hd
+                (Gengo.Proofs.RenderStackConcrete.tracker_inv_nil self) E) as (_ & _ & P).
+    destruct (ident_frag_spec the_pick (pick_total the_pre the_std) parse_c15 self cbq true true x [] a e' E) as [R _].
+    rewrite R in P. specialize (P p). rewrite (add_all_paths the_pick (pick_total the_pre the_std)) in P. cbn [map In] in P. tauto.
+  Qed.
+
+  Lemma table_ok_inv : forall e, table_ok the_pre e -> ~ In self (map fst e) ->
+    PTL.tracker_inv self e /\ Forall PTL.lower_name (map snd e).
+  Proof.
+    intros e (N1 & N2 & A) Hs. split.
+    - unfold PTL.tracker_inv, PTL.inv. repeat split; try assumption.
+      + rewrite Forall_forall in *. intros n Hn. destruct (A n Hn) as (V & _ & _). apply Gengo.Proofs.Tracker.valid_name_nonempty, V.
+      + rewrite Forall_forall. intros; exact I.
+    - rewrite Forall_forall in *. intros n Hn. destruct (A n Hn) as (_ & [_ LF] & NP). split; [|exact LF].
+      destruct (is_predeclared n) eqn:E; [|reflexivity]. exfalso.
+      apply Gengo.Proofs.StdTable.c11_predeclared_in_universe in E. apply Gengo.Proofs.Tracker.name_in_spec in E.
+      unfold the_pre in NP. congruence.
+  Qed.
+
+  (* a type all of whose packages the file imports renders, against the file's table, to an expression that leaves the
+     table alone and that denotes the type when it is read through that table *)
+  Theorem type_leaf_denotes : forall e' x g,
+    table_ok the_pre e' -> ~ In self (map fst e') ->
+    PTL.renders x g -> in_domain PTL.all_tags self g = true -> locals_exported self g = true ->
+    (forall p, In p (foreign_pkgs self g) -> In p (map fst e')) ->
+    exists a, TL.ident_frag the_pick parse_c15 self cbq true true x e' = Ok (a, e') /\
+              resolve e' self a = Some (canon g).
+  Proof.
+    intros e' x g T Hs Hx Hd Hl Hin. destruct (table_ok_inv e' T Hs) as [I L].
+    destruct (Gengo.Proofs.RenderStackConcrete.c11_total_concrete self cbq Hc x g e' Hx Hd I) as (a & e2 & E).
+    destruct (ident_frag_spec the_pick (pick_total the_pre the_std) parse_c15 self cbq true true x e' a e2 E) as [R _].
+    assert (E2 : e2 = e').
+    { rewrite R. apply add_all_registered. intros p Hp. apply Hin. apply (idarg_regs_exact x g Hx Hd). exact Hp. }
+    clear R. subst e2. exists a. split; [exact E|].
+    exact (Gengo.Proofs.RenderStackConcrete.c11_roundtrip_exported_concrete self cbq Hc x g e' a e' Hx Hd Hl I L E).
+  Qed.
+End TypeLeaves.
